@@ -168,7 +168,7 @@ def with_kf(lines, kf):
     return [json.dumps(r, separators=(",", ":"))] + lines[1:]
 
 
-def validate_histories(spec_dir, module, cfg, histories, kf_for=None, batch_records=2500, jobs=8, max_violations=3,
+def validate_histories(spec_dir, module, cfg, histories, kf_for=None, batch_records=2500, jobs=None, max_violations=3,
                        batch_timeout=420):
     """Trace-validates histories (lists of lines) against a Layer A trace spec.
 
@@ -181,6 +181,7 @@ def validate_histories(spec_dir, module, cfg, histories, kf_for=None, batch_reco
     Returns dict(validated, accepted, known=[...], violations=[...], undecided=[...]).
     """
     import threading
+    jobs = jobs or int(os.environ.get("VERIF_JOBS", "8"))
     batches, cur, n = [], [], 0
     for idx, h in enumerate(histories):
         cur.append((idx, h))
